@@ -131,3 +131,68 @@ func c19forward(c *Ctx) {
 		r.Check(ok && nDel >= 1, "MIRROR", fkey(fn)+"/inverse-of-add", c.Pos(fn.Pos()), "only the released VFs leave the stored set", "releasing one pod's virtual functions can wipe the other pods' on the same physical function ("+why+"): the in-use VF is handed out again")
 	}
 }
+
+// c19deviceUpdate: the deviceshare update handler validates before it mutates and does release+add in one critical section.
+func c19deviceUpdate(c *Ctx) {
+	r := c.R
+	r.Rule("ORDER(validate, then one critical section): in nodeDeviceCache.updatePod no parse of an allocation annotation (GetDeviceAllocations) is reachable after a call that changes the device ledger (updateCacheUsed, directly or through a callee) - an event whose annotation cannot be read leaves the ledger untouched; and where an update both releases the previous version and records the current one, both are direct updateCacheUsed calls under one acquisition of the node's lock (a callee that takes the lock itself opens a window in which a running pod's device is free)")
+	fn := c.Fn(devPkg, "nodeDeviceCache", "updatePod")
+	if fn == nil {
+		return
+	}
+	var muts, parses []ssa.CallInstruction
+	for _, cl := range an.Calls(fn, true) {
+		switch {
+		case an.ShortCallee(cl.Common()) == "GetDeviceAllocations":
+			parses = append(parses, cl)
+		case an.ShortCallee(cl.Common()) == "updateCacheUsed":
+			muts = append(muts, cl)
+		default:
+			if callee := cl.Common().StaticCallee(); callee != nil && len(callee.Blocks) > 0 && Reaches(callee, "updateCacheUsed", 4) {
+				muts = append(muts, cl)
+			}
+		}
+	}
+	ok, why := true, ""
+	after := func(a, b ssa.Instruction) bool { // b reachable after a
+		if a.Block() == b.Block() {
+			ia, ib := -1, -1
+			for i, in := range a.Block().Instrs {
+				if in == a {
+					ia = i
+				}
+				if in == b {
+					ib = i
+				}
+			}
+			if ib > ia {
+				return true
+			}
+		}
+		for _, s := range a.Block().Succs {
+			if s == b.Block() || an.ForwardReachBlocks(s)[b.Block()] {
+				return true
+			}
+		}
+		return false
+	}
+	for _, m := range muts {
+		for _, p := range parses {
+			if m.Parent() == fn && p.Parent() == fn && after(m, p) {
+				ok = false
+				why = c.InstrPos(m) + " changes the ledger before " + c.InstrPos(p) + " has read the annotation"
+			}
+		}
+		// a ledger change followed by another ledger change: both must be direct calls (same critical section)
+		for _, m2 := range muts {
+			if m == m2 || m.Parent() != fn || m2.Parent() != fn || !after(m, m2) {
+				continue
+			}
+			if an.ShortCallee(m.Common()) != "updateCacheUsed" || an.ShortCallee(m2.Common()) != "updateCacheUsed" {
+				ok = false
+				why = c.InstrPos(m) + " and " + c.InstrPos(m2) + " change the ledger in separate critical sections"
+			}
+		}
+	}
+	r.Check(ok && len(muts) >= 2 && len(parses) >= 1, "ORDER", fkey(fn)+"/validate-then-one-section", c.Pos(fn.Pos()), "annotations are read before the ledger changes; release and add share one critical section", "a replayed update can release a running pod's devices and then fail or pause before recording them again ("+why+"): the device is considered free")
+}
